@@ -5,7 +5,7 @@ COMMON_ASSUME = [
     "absence of violations is only established for the generated cases counted here",
 ]
 
-HOOK_COMMITS = []
+HOOK_COMMITS = ["8b5281d", "a545a32"]
 
 NOT_APPLICABLE = {}
 
@@ -168,5 +168,47 @@ PROPS = {
         "level_text": "Generated and coverage-guided search for a crashing line/request and for a result change caused by inert lines.",
         "level_note": "Trusted: rules.NewRule as the definition of 'rejected line'. Non-termination would show as the test timeout (reported as inconclusive, exit 2).",
         "assumptions": COMMON_ASSUME + ["a line contains no line feed", "callers check the error before using the returned rule"],
+    },
+    "C13": {
+        "shards": (4, 16),
+        "rule": "rapid histories (sequence generated as one shrinkable value): lists (String or File backed, 1..3 lists, all tables populated, hosts lines, cosmetic rules, $dnsrewrite rules and exceptions, plus field-sensitive rules that match iff client IP / client name / tag / record type / source has a given value) and 10..60 (thorough ..200) steps over ONE long-lived Engine+NetworkEngine+DNSEngine: queries built from the rules, bursts that toggle exactly one client field between otherwise equal queries, repeats of earlier queries, derived-result calls (DNSRewrites, DNSRewritesAll, GetDNSBasicRule, GetBasicResult, GetCosmeticOption) on OLD result objects, queries whose request object the caller mutates afterwards. "
+                "Oracle: answer at each step == answer of a fresh storage+engines built from the same text for that query alone (canonical snapshot: sorted rule texts per field, flags, effective rewrites, cosmetic selectors); invariant after every step: snapshots of all earlier result objects unchanged. Non-trivial = history repeats a query after a query with different client fields, or calls a derived-result method on an old result; distinct by history hash.",
+        "technique": "stateful/model-based property-based testing (rapid): long-lived engine vs fresh engine per query, history invariant on earlier results",
+        "level_text": "Sampled histories with a fresh-engine model; field toggling is built into the generator because unsteered histories miss pooled-request leaks.",
+        "level_note": "Trusted: engine construction itself is deterministic (a fresh engine is the model).",
+        "assumptions": COMMON_ASSUME + ["single goroutine (concurrency is C14)"],
+    },
+    "C14": {
+        "shards": (4, 12),
+        "race": True,
+        "replay_repeat": 20,
+        "timeout": [900, 7200],
+        "rule": "rapid: lists as in C13 (String and File backed), a request multiset of 50..200 (thorough ..400) queries with duplicates and URLs/hosts that hit shared buckets, partitioned over 2..32 goroutines released by a barrier on a cold (3 in 4) or half-warm cache, in a binary built with the race detector; the verif yield hook (cache miss, before cache insert, between file seek and read, before lazy regexp compile, after taking a pooled request) calls Gosched or sleeps 0..50us following a stream derived from the generated seed. "
+                "Oracle: every concurrent answer == the sequential answer of a separate fresh engine, compared as sorted MULTISETS of rule texts plus flags (a rule reported twice is a difference); no goroutine panics; any race-detector report is a violation (GORACE halt_on_error). Non-trivial = >=2 goroutines were inside the cold-retrieval path at the same time, or a lazy compile happened during the concurrent phase (measured through the hook); distinct by case hash.",
+        "technique": "property-based concurrency testing (rapid) under the race detector with hook-driven schedule perturbation; differential oracle vs sequential execution",
+        "level_text": "Schedules are sampled (Go scheduler + perturbation), not enumerated; a violation that needs one exact interleaving can be missed. Reported as exploration.",
+        "level_note": "Trusted: the Go race detector; sequential execution on a fresh engine as the model. Failures are schedule dependent: a replay re-runs the case 20 times.",
+        "assumptions": COMMON_ASSUME + ["engines are only queried (no reconstruction) during the concurrent phase"],
+    },
+    "C19": {
+        "level": "fault_enumeration",
+        "shards": (4, 16),
+        "rule": "rapid generates (file-backed lists covering all three network tables, hosts lines, rewrites; history q1..qn with n<=12, DNS and web, repeats); for EACH generated pair EVERY fault point k in 0..n x kind in {storage.Close(), list.File replaced by an already-closed *os.File} is enumerated on a freshly built engine; evaluations = (history, fault point, query) triples. "
+                "Oracle: for i>=k no panic, result(qi) subset of the fault-free answer, every rule returned before k that matches qi is still returned; for i<k results equal the fault-free answer. Non-trivial = some query after the fault has a matching rule that was materialised before the fault; distinct by (lists, history).",
+        "exhaustive_note": "for every generated (lists, history): all n+1 fault points x 2 fault kinds",
+        "technique": "fault-point enumeration over rapid-generated (list, history) pairs with a fault-free engine as oracle",
+        "level_text": "Every fault point of every generated history is enumerated; histories and lists are sampled.",
+        "level_note": "Trusted: the fault-free String-backed engine as oracle; faults are injected through the public Close() and the exported File field only.",
+        "assumptions": COMMON_ASSUME + ["single goroutine", "fault kinds: storage closed, file handle replaced by a closed descriptor (as the property lists)"],
+    },
+    "C20": {
+        "shards": (4, 16),
+        "fuzz": [("FuzzC20", 60)],
+        "rule": "rapid: bodies of 0..48 KiB assembled from segments (ASCII, high-byte runs, all 256 byte values) and 0..4 markers (</head, <link, <style, <script in any letter case, truncated and near-miss markers) with segment lengths that put a marker before, within +-12 bytes of, and beyond the 16 KiB window, also +-8 around the half window for high-byte prefixes (which double when transcoded); plain or gzip Content-Encoding; CSP headers; stale declared length; thorough adds native fuzzing of the body. "
+                "Oracle (through the verif hook VerifFilterHTML): first marker at original offset i: i>=16384 or none -> output == body; i and its Latin-1->UTF-8 transcoded offset < 16384 -> output == body[:i]+tag+body[i:]; in between either is accepted (counted 'ambiguous-window-unit'); ContentLength == len(output); Content-Encoding removed. Non-trivial = high byte before the marker, marker within 8 bytes of the window edge, or gzip; distinct by (body, gzip).",
+        "technique": "property-based testing (rapid) + native fuzzing with a byte-exact reconstruction oracle",
+        "level_text": "Generated and coverage-guided search for a body whose bytes are not preserved or whose tag lands elsewhere.",
+        "level_note": "Trusted: the hook wrapper (fixed injection host and timestamp) and compress/gzip.",
+        "assumptions": COMMON_ASSUME + ["the unit of the 16 KiB inspected prefix (original vs transcoded bytes) is not fixed by the statement; the narrow zone between is accepted either way"],
     },
 }
